@@ -426,14 +426,16 @@ func (wa *workerActor) apply(req *remoteworker.SynchronizeRequest, resp *remotew
 // ---------------------------------------------------------------------------
 
 type operatorActor struct {
-	w         *world
-	actor     *simsync.Actor
-	ctx       context.Context
-	cancel    context.CancelFunc
-	cancelled bool
-	blocking  bool
-	killSeq   int
-	ops       int
+	w           *world
+	actor       *simsync.Actor
+	ctx         context.Context
+	cancel      context.CancelFunc
+	cancelled   bool
+	blocking    bool
+	termPattern map[string]string
+	termTasks   map[string]uintptr
+	killSeq     int
+	ops         int
 }
 
 func newOperator(w *world) *operatorActor {
@@ -520,6 +522,8 @@ func (o *operatorActor) loop() {
 			_, err = w.bq.RemoveDrain(o.ctx, &buildqueuestate.AddOrRemoveDrainRequest{SizeClassQueueName: qn, WorkerIdPattern: pattern})
 		case 4:
 			desc = fmt.Sprintf("TerminateWorkers %v", pattern)
+			o.termPattern = pattern
+			o.termTasks = nil
 			o.blocking = true
 			_, err = w.bq.TerminateWorkers(o.ctx, &buildqueuestate.TerminateWorkersRequest{WorkerIdPattern: pattern})
 			o.blocking = false
